@@ -1,51 +1,267 @@
 package c04
 
 import (
+	"bytes"
+	"encoding/hex"
 	"fmt"
 	"reflect"
+	"sort"
+	"strings"
 	"testing"
 
+	"go.minekube.com/gate/pkg/edition/java/proto/state/states"
+	"go.minekube.com/gate/pkg/edition/java/proto/version"
 	"go.minekube.com/gate/pkg/edition/java/proxy/zzverif/pktgen"
 	"go.minekube.com/gate/pkg/edition/java/proxy/zzverif/vrt"
+	"go.minekube.com/gate/pkg/gate/proto"
 )
 
-func dump(t reflect.Type, ind string, seen map[reflect.Type]bool) {
-	if t.Kind() == reflect.Ptr || t.Kind() == reflect.Slice || t.Kind() == reflect.Array {
-		dump(t.Elem(), ind, seen)
+type replay struct {
+	Cell string      `json:"cell"`
+	Spec pktgen.Spec `json:"spec"`
+	What string      `json:"what"`
+}
+
+type H struct {
+	r *vrt.R
+}
+
+func hx(b []byte) string {
+	if len(b) > 96 {
+		return fmt.Sprintf("%s…(%d bytes)", hex.EncodeToString(b[:96]), len(b))
+	}
+	return hex.EncodeToString(b)
+}
+
+// encode runs Encode with a fresh context; panics are reported separately from errors.
+func encode(c pktgen.Cell, p proto.Packet) (out []byte, err error, panicked any) {
+	var buf bytes.Buffer
+	pn, pv := vrt.Catch(func() { err = p.Encode(c.Ctx(), &buf) })
+	if pn {
+		return nil, nil, pv
+	}
+	return buf.Bytes(), err, nil
+}
+
+// decode runs Decode the way codec.Decoder does: panics carrying an error are errors.
+func decode(c pktgen.Cell, data []byte) (p proto.Packet, left int, err error, panicked any) {
+	p = c.New()
+	rd := bytes.NewReader(data)
+	pn, pv := vrt.Catch(func() { err = p.Decode(c.Ctx(), rd) })
+	if pn {
+		if e, ok := pv.(error); ok {
+			return p, rd.Len(), e, nil
+		}
+		return p, rd.Len(), nil, pv
+	}
+	return p, rd.Len(), err, nil
+}
+
+func classOfLabel(l string) string {
+	if i := strings.Index(l, "="); i >= 0 {
+		l = l[i+1:]
+	}
+	if strings.HasPrefix(l, "actions:set") {
+		return "actions:subset"
+	}
+	if strings.HasPrefix(l, "holder:") || strings.HasPrefix(l, "comp:") {
+		return "component:" + l[strings.Index(l, ":")+1:]
+	}
+	if len(l) > 0 && (l[0] == '-' || (l[0] >= '0' && l[0] <= '9')) {
+		return "int:" + l
+	}
+	return l
+}
+
+func (h *H) runCase(g *pktgen.Gen, cs pktgen.Case) {
+	r := h.r
+	c := g.Cell
+	tn := pktgen.TypeName(c.Type)
+	r.Eval(1)
+	label := func() string { return c.String() + " " + g.Label(cs.Spec) }
+	vio := func(key, detail string) {
+		r.Violation(key, fmt.Sprintf("%s\n  %s", label(), detail), replay{Cell: c.String(), Spec: cs.Spec, What: key})
+	}
+	x := cs.Build()
+	if why := pktgen.Invalid(c, x); why != "" {
+		r.Class("constraint-skipped/" + tn)
+		r.AddExtra("constraint_skipped", 1)
 		return
 	}
-	if t.Kind() == reflect.Map {
-		dump(t.Key(), ind, seen)
-		dump(t.Elem(), ind, seen)
+	na := pktgen.NotApplicable(c, x)
+	enc1, err, pv := encode(c, x)
+	if pv != nil {
+		r.Class("encode-panic/" + tn)
+		r.AddExtra("encode_panics", 1)
 		return
 	}
-	if t.Kind() != reflect.Struct || seen[t] {
+	if err != nil {
+		legit := false
+		for _, m := range pktgen.LegitEncodeRejections {
+			if strings.Contains(err.Error(), m) {
+				legit = true
+				break
+			}
+		}
+		if legit {
+			r.Class("encode-rejected(documented constraint)/" + tn)
+			r.AddExtra("encode_rejected", 1)
+			return
+		}
+		key := tn + "/encode-rejects-permitted-value"
+		if strings.Contains(err.Error(), "snbt") || strings.Contains(err.Error(), "binary tag") {
+			key = "chat.ComponentHolder(nbt)/encode-rejects-permitted-value"
+		}
+		vio(key, fmt.Sprintf("Encode returned an error for a value the protocol permits: %v", err))
 		return
 	}
-	seen[t] = true
-	for i := 0; i < t.NumField(); i++ {
-		f := t.Field(i)
-		fmt.Printf("%s%s %s (%s) exported=%v\n", ind, f.Name, f.Type, f.Type.Kind(), f.IsExported())
-		dump(f.Type, ind+"    ", seen)
+	r.AddExtra("cases_encoded", 1)
+	if len(enc1) > 0 {
+		r.Nontrivial(1)
 	}
+	y, left, err, pv := decode(c, enc1)
+	if pv != nil {
+		vio(tn+"/decode-panic", fmt.Sprintf("Decode panicked with non-error %v on own encoding %s", pv, hx(enc1)))
+		return
+	}
+	if err != nil {
+		vio(tn+"/decode-error", fmt.Sprintf("Decode of own encoding failed: %v\n  encoding: %s", err, hx(enc1)))
+		return
+	}
+	if left != 0 {
+		vio(tn+"/decoder-left-bytes", fmt.Sprintf("%d of %d bytes left unread; encoding: %s", left, len(enc1), hx(enc1)))
+	}
+	enc2, err, pv := encode(c, y)
+	switch {
+	case pv != nil:
+		vio(tn+"/reencode-panic", fmt.Sprintf("re-encoding the decoded packet panicked: %v", pv))
+	case err != nil:
+		vio(tn+"/reencode-error", fmt.Sprintf("re-encoding the decoded packet failed: %v", err))
+	case !bytes.Equal(pktgen.MaskEncoding(c, x, enc1), pktgen.MaskEncoding(c, x, enc2)):
+		same := false
+		if pktgen.HasMap(c.Type) && len(enc1) == len(enc2) {
+			// map iteration order: accept iff the second encoding decodes to the same value
+			if z, l2, e2, p2 := decode(c, enc2); e2 == nil && p2 == nil && l2 == 0 && len(pktgen.DiffPackets(tn, y, z)) == 0 {
+				same = true
+				r.Class("reencode-equal-modulo-map-order")
+			}
+		}
+		if !same {
+			off := 0
+			for off < len(enc1) && off < len(enc2) && enc1[off] == enc2[off] {
+				off++
+			}
+			vio(tn+"/reencode-differs", fmt.Sprintf("first difference at offset %d (len %d vs %d)\n  first:  %s\n  second: %s",
+				off, len(enc1), len(enc2), hx(enc1), hx(enc2)))
+		}
+	}
+	for _, d := range pktgen.DiffPackets(tn, x, y) {
+		if na[d.Path.Norm()] {
+			r.Class("field-not-applicable-in-this-mode")
+			continue
+		}
+		if !h.onWire(g, cs, x, enc1, d.Path) {
+			r.Class("field-not-on-wire-in-this-version")
+			continue
+		}
+		key := tn + "." + d.Path.Norm() + "/value-differs"
+		if pktgen.IsComponentPath(g, d.Path) {
+			// one key per wire representation, not per packet field: all go through ComponentHolder
+			key = "chat.ComponentHolder(json)/value-differs"
+			if c.Protocol.GreaterEqual(version.Minecraft_1_20_3) && !(c.State.State == states.LoginState) {
+				key = "chat.ComponentHolder(nbt)/value-differs"
+			}
+		}
+		vio(key, fmt.Sprintf("field %s: original %s, decoded %s\n  encoding: %s", d.Path, d.A, d.B, hx(enc1)))
+	}
+}
+
+// onWire: does changing the value at path change the encoding of this packet?
+func (h *H) onWire(g *pktgen.Gen, cs pktgen.Case, x proto.Packet, enc1 []byte, path pktgen.Path) bool {
+	al := g.AlphabetAt(path)
+	if al == nil {
+		return true
+	}
+	canon := func(pk proto.Packet, b []byte) []byte {
+		b = pktgen.MaskEncoding(g.Cell, pk, b)
+		// map iteration order (packet maps, JSON->NBT compound order): compare as byte multisets
+		b = append([]byte(nil), b...)
+		sort.Slice(b, func(i, j int) bool { return b[i] < b[j] })
+		return b
+	}
+	ref := canon(x, enc1)
+	for _, val := range al {
+		y := cs.Build()
+		ok := true
+		if pn, _ := vrt.Catch(func() { g.SetAt(reflect.ValueOf(y), path, val.Make()) }); pn {
+			ok = false
+		}
+		if !ok {
+			continue
+		}
+		enc, err, pv := encode(g.Cell, y)
+		if err != nil || pv != nil {
+			continue
+		}
+		if !bytes.Equal(canon(y, enc), ref) {
+			return true
+		}
+	}
+	return false
 }
 
 func TestVerif(t *testing.T) {
 	vrt.Run(t, "C04", func(r *vrt.R) {
-		cells := pktgen.Cells()
-		types := map[reflect.Type]int{}
-		var order []reflect.Type
-		for _, c := range cells {
-			if types[c.Type] == 0 {
-				order = append(order, c.Type)
+		h := &H{r: r}
+		var rp replay
+		if r.ReplayInto(&rp) {
+			c, ok := pktgen.FindCell(rp.Cell)
+			if !ok {
+				t.Fatalf("replay: unknown cell %s", rp.Cell)
 			}
-			types[c.Type]++
+			g := pktgen.NewGen(c)
+			h.runCase(g, g.CaseFor(rp.Spec))
+			return
 		}
-		fmt.Println("cells", len(cells), "types", len(types))
-		for _, ty := range order {
-			fmt.Printf("== %s cells=%d\n", ty, types[ty])
-			dump(ty, "  ", map[reflect.Type]bool{})
+		depth := 1
+		if r.Thorough() {
+			depth = 2
 		}
-		r.Eval(1)
+		cells := pktgen.Cells()
+		types := map[string]bool{}
+		for i, c := range cells {
+			if !r.Mine(i) {
+				continue
+			}
+			if r.Expired() {
+				break
+			}
+			g := pktgen.NewGen(c)
+			tn := pktgen.TypeName(c.Type)
+			types[tn] = true
+			r.AddExtra("cells", 1)
+			n := 0
+			g.Enumerate(depth, func(cs pktgen.Case) bool {
+				n++
+				if n%512 == 0 && r.Expired() {
+					return false
+				}
+				r.Class("type:" + tn)
+				for _, d := range cs.Spec.Devs {
+					_ = d
+				}
+				if len(cs.Spec.Devs) > 0 {
+					lbl := g.Label(pktgen.Spec{Devs: cs.Spec.Devs[len(cs.Spec.Devs)-1:]})
+					lbl = strings.TrimSuffix(strings.TrimPrefix(lbl, "{"), "}")
+					r.Class("val:" + classOfLabel(lbl))
+				}
+				h.runCase(g, cs)
+				if n == 3 {
+					r.Sample(map[string]string{"cell": c.String(), "case": g.Label(cs.Spec)})
+				}
+				return true
+			})
+		}
+		r.Extra("deviation_depth", fmt.Sprint(depth))
 	})
 }
